@@ -208,3 +208,6 @@ func runOne(path string, harnesses map[string]func()) {
 	fmt.Printf("VERIF-CONSUMED %d/%d\n", pos, len(cur.Nondet))
 	fmt.Printf("VERIF-RESULT %s\n", result)
 }
+
+func TraceShared(x any, name string) {}
+func TraceTake() []string          { return nil }
